@@ -1035,6 +1035,7 @@ type freeCase struct {
 	Caps   []int
 	Events []event
 	Hang   bool
+	Storm  bool
 	Stops  int
 	Quis   int
 }
@@ -1192,7 +1193,50 @@ func runFree(seed int64) freeCase {
 			c()
 		}
 	}
+	// One history in three is a "storm": no ordinary actors, but many
+	// WithCancelOnQuiesce contexts (Quiesce cancels them under the mutex, so
+	// it holds the mutex for a while before and after it sets quiescing) and
+	// one or two goroutines that call RunTask back to back from just before
+	// the first Stop / Quiesce call until they are refused.  A call that is
+	// let in although quiescing was already set slips past the drain.  A
+	// body that finds ShouldQuiesce closed lingers, so that it is still
+	// running when a Stopper that let it in late closes the stop channel.
+	storm := rng.Intn(3) == 0
+	res.Storm = storm
+	goCh := make(chan struct{})
+	var goOnce sync.Once
+	var stormCancels []func()
 	nActors := 3 + rng.Intn(5)
+	if storm {
+		nActors = 0
+		for k := 128 + rng.Intn(384); k > 0; k-- {
+			_, cancel := s.WithCancelOnQuiesce(bg)
+			stormCancels = append(stormCancels, cancel)
+		}
+		for h := 1 + rng.Intn(2); h > 0; h-- {
+			wg.Add(1)
+			go func() {
+				defer wg.Done()
+				defer l.guard("hammer")
+				<-goCh
+				for k := 0; k < 150; k++ {
+					i := int(atomic.AddInt32(&taskID, 1)) - 1
+					l.add("start", i, -1, "", false)
+					err := s.RunTask(bg, "h", func(context.Context) {
+						l.add("begin", i, -1, "", true)
+						if closed(s.ShouldQuiesce()) {
+							time.Sleep(300 * time.Microsecond)
+						}
+						l.add("end", i, -1, "", true)
+					})
+					l.add("ret", i, -1, errName(err), true)
+					if err != nil {
+						break
+					}
+				}
+			}()
+		}
+	}
 	for a := 0; a < nActors; a++ {
 		wg.Add(1)
 		prologue.Add(1)
@@ -1216,11 +1260,22 @@ func runFree(seed int64) freeCase {
 		wg.Add(1)
 		isStop := k < nStops
 		delay := time.Duration(rng.Intn(1500)) * time.Microsecond
+		if storm {
+			delay = time.Duration(10+rng.Intn(150)) * time.Microsecond
+		}
 		go func() {
 			defer wg.Done()
 			defer l.guard("Stop/Quiesce")
 			prologue.Wait()
-			time.Sleep(delay)
+			goOnce.Do(func() { close(goCh) })
+			if storm {
+				// a timer may fire late by more than the hammering lasts: spin
+				for t0 := time.Now(); time.Since(t0) < delay; {
+					runtime.Gosched()
+				}
+			} else {
+				time.Sleep(delay)
+			}
 			id := int(atomic.AddInt32(&callID, 1)) - 1
 			if isStop {
 				l.add("stopcall", id, -1, "", false)
@@ -1234,7 +1289,14 @@ func runFree(seed int64) freeCase {
 		}()
 	}
 	done := make(chan struct{})
-	go func() { wg.Wait(); <-s.IsStopped(); close(done) }()
+	go func() {
+		wg.Wait()
+		<-s.IsStopped()
+		for _, c := range stormCancels {
+			c()
+		}
+		close(done)
+	}()
 	select {
 	case <-done:
 	case <-time.After(time.Duration(atomic.LoadInt64(&hangTimeout))):
